@@ -279,6 +279,9 @@ pub struct Cfg {
     /// `Disconnect` may also be called with a property that is not legal on a DISCONNECT (refused on a
     /// live handle, `Ok` on a dead one)
     pub disc_illegal: bool,
+    /// how the payload of a publish is supplied: 0 = byte slice, 1 = a closure that scribbles over the
+    /// whole buffer it is given before writing the payload at its start, 2 = `Publication::text`
+    pub payload_kinds: Vec<u8>,
 }
 
 #[derive(Copy, Clone, Debug, PartialEq, Eq)]
@@ -336,6 +339,7 @@ impl Cfg {
             age_aliases: Vec::new(),
             drain_until_dead: false,
             disc_illegal: false,
+            payload_kinds: vec![0],
         }
     }
     pub fn has(&self, p: &str) -> bool {
